@@ -96,11 +96,13 @@ def tlc(workdir, module, cfg=None, workers=None, timeout=600, extra=None, files=
 
     files: dict name -> text of additional files to write into workdir before the run.
     Returns a TLCResult; raises Inconclusive on timeout or a crash of TLC itself."""
-    if not os.path.exists(os.path.join(workdir, "Common.tla")) and os.path.isdir(SPEC):
+    marker = os.path.join(workdir, ".spec-copied")
+    if not os.path.exists(marker) and os.path.isdir(SPEC):   # once per scratch dir (parallel runs share it)
         for root, dirs, fs in os.walk(SPEC):
             for f in fs:
                 if f.endswith((".tla", ".cfg")):
                     shutil.copy(os.path.join(root, f), os.path.join(workdir, f))
+        open(marker, "w").close()
     for name, text in (files or {}).items():
         with open(os.path.join(workdir, name), "w") as fh:
             fh.write(text)
